@@ -29,6 +29,8 @@ REQUIRED_TAGS = [
     "promise_kept_third", "promise_broken",      # promise kept by a third party; promise broken
     "ask_sum_third_batch", "ask_sum_refused",   # >= 3 IHAVE batches of one peer in one heartbeat: the running total is capped
     "promise_kept_validating",                   # requested message still in (slow) validation when the follow-up time ran out
+    # ONE RPC carrying >= 2 control entries of a kind, each within its bound, together beyond it
+    "idw_multi_entry_over", "ihave_multi_entry_over", "iwant_multi_entry_over", "ihave_same_topic_entries", "ihave_two_topics_over",
     # every mechanism a change could touch
     "idw_out_sent", "idw_out_small", "idw_out_sender", "idw_out_old_proto",
     "adv_mesh_excluded", "adv_low_score_excluded", "adv_direct_excluded", "adv_flood_excluded", "adv_subset", "adv_truncated",
@@ -85,8 +87,10 @@ MC_BUG = [
     ("KeepPeerDontWant", "idw", "P_C17_IDontWantIn"),
     ("IDWNoFeature", "idw", "A_IDontWantOut"),
     ("GossipBelowThreshold", "adv", "A_Advertise"),
+    ("IDWLenPerEntry", "idw1", "A_IDontWantIn"),    # MaxIDontWantLength budget restarted for every IDONTWANT entry of one RPC
 ]
-QUICK_BUGS = ("AdvertiseWholeHistory", "ShiftEarly", "RetxOffByOne", "KeepIAsked", "TTLOffByOne", "IDWToSender", "PenaliseKept")
+QUICK_BUGS = ("AdvertiseWholeHistory", "ShiftEarly", "RetxOffByOne", "KeepIAsked", "TTLOffByOne", "IDWToSender", "PenaliseKept",
+              "IDWLenPerEntry")
 
 
 def mc_cfg(over, bug=None):
@@ -101,17 +105,18 @@ def model_check(ctx):
     bug_jobs = [b for b in MC_BUG if ctx.thorough or b[0] in QUICK_BUGS]
     overs = dict(mc_ok(False))
     overs["ask3len"] = dict(overs["ask"], MaxIHaveLen=3)
+    overs["idw1"] = dict(overs["idw"], MaxIDWLen=1)
 
     def run_ok(job):
         name, over = job
         return vlib.run_tlc(ctx, FAMILY, "MCGossip", mc_cfg(over), timeout=900 if not ctx.thorough else 1800,
-                            name="mc-" + name, workers=2)
+                            name="mc-" + name, workers=1)
 
     def run_bug(job):
         bug, basecfg, prop = job
         return vlib.run_tlc(ctx, FAMILY, "MCGossip", mc_cfg(overs[basecfg], bug), timeout=600, name="mcbug-" + bug, workers=1)
 
-    with cf.ThreadPoolExecutor(max_workers=6) as ex:
+    with cf.ThreadPoolExecutor(max_workers=2) as ex:      # at most 4 TLC workers in all: 2 here, 2 in generation / validation
         ok_f = [ex.submit(run_ok, j) for j in ok_jobs]
         bug_f = [ex.submit(run_bug, j) for j in bug_jobs]
         ok_res = [f.result() for f in ok_f]
@@ -147,6 +152,12 @@ def families(ctx):
         ("ask2", dict(AccArgs="Acc_ask", IHaveArgs="IHave_ask2", MaxHb=3, MaxStim=4, MaxIHaveLen=3), 6 if t else 5, "bfs", {}),
         ("ask3", dict(Ids=S(*["x%d" % i for i in range(1, 10)]), Big=set(), IHaveArgs="IHave_ask3", MaxHb=2, MaxStim=5,
                       MaxIHaveLen=5, MaxIHaveMsgs=4), 5, "bfs", {}),
+        ("multi1", dict(Ids=S("m1", "m2", "m3", "m4"), AccArgs="Acc_multi", IDWArgs="IDW_multi", IWantArgs="IWant_serve",
+                        MaxHb=3, MaxStim=3), 5 if t else 4, "bfs", {}),
+        ("multi2", dict(Ids=S("m1", "m2", "m3", "m4"), AccArgs="Acc_ask", IHaveArgs="IHave_multi", MaxHb=3, MaxStim=3),
+         5 if t else 4, "bfs", {}),
+        ("multi3", dict(Ids=S("m1", "m2", "m3", "m4"), AccArgs="Acc_multi", IWantArgs="IWant_multi", MaxHb=4, MaxStim=3),
+         6 if t else 5, "bfs", {}),
         ("prom", dict(AccArgs="Acc_prom", IHaveArgs="IHave_prom", MaxHb=5, MaxStim=2), 7 if t else 6, "bfs", {}),
         ("adv", dict(SelfIds=S("m3"), AccArgs="Acc_adv", ScoreArgs="Score_adv", MaxHb=6, MaxStim=2), 7 if t else 6, "bfs", {}),
         ("adv2", dict(SelfIds=S("m3"), AccArgs="Acc_adv", ScoreArgs="Score_adv", MaxHb=6, MaxStim=3, Dlazy=2, FactorPct=25,
@@ -179,12 +190,12 @@ def generate(ctx):
         c["L"] = L
         cfg = vlib.cfg_text(spec="GSpec", constants=c, invariants=["Emit"], view="GenView" if mode == "bfs" else None)
         if mode == "bfs":
-            return vlib.run_tlc(ctx, FAMILY, "GenGossip", cfg, timeout=900, name="gen-" + name, workers=2, heap="4g")
+            return vlib.run_tlc(ctx, FAMILY, "GenGossip", cfg, timeout=900, name="gen-" + name, workers=1, heap="4g")
         n = mode.split(":")[1]
         return vlib.run_tlc(ctx, FAMILY, "GenGossip", cfg, mode="sim", simulate="num=%s" % n, depth=L + 2, timeout=900,
                             name="gen-" + name, workers=1, heap="4g")
 
-    with cf.ThreadPoolExecutor(max_workers=4) as ex:
+    with cf.ThreadPoolExecutor(max_workers=2) as ex:
         results = list(ex.map(one, fams))
     out, states, transitions = [], 0, 0
     for f, res in zip(fams, results):
@@ -286,6 +297,8 @@ def to_scenario(fam, consts, hist, variant):
             acts.append({"a": "hb"})
         else:
             raise vlib.Inconclusive("unknown stimulus in generated behaviour: %r" % (s,))
+        if a in ("ihave", "iwant", "idontwant") and s.get("split"):
+            acts[-1]["split"] = list(s["split"])        # several control entries in ONE RPC
     acts += [{"a": "hb"}] * 3
     return {"cfg": cfg, "acts": acts, "fam": fam, "cov": None}
 
@@ -321,6 +334,56 @@ def slow_scenarios(ctx):
                     acts += [{"a": "hb"}] * 6
                     out.append({"cfg": {"followupMs": 1000, "slowMs": slow, "slowPrefix": "s", "slowVerdict": verdict,
                                         "maxIHaveLen": 3}, "acts": acts, "fam": "slow", "cov": []})
+    return out
+
+
+def multi_scenarios(ctx):
+    """Directed scenarios with SEVERAL control entries of a kind in ONE RPC (world's optional `split` / `ts`), the node
+    subscribed to two topics: IDONTWANT 2 x 2 ids with bound 2 and 3 x 4 ids with the library's bound 10, followed by
+    probes (message arrives, IWANT); IHAVE entries of the same topic and of two topics whose unseen ids together exceed
+    MaxIHaveLength; IWANT entries repeating an id beyond GossipRetransmission."""
+    out = []
+    xs = ["x%d" % i for i in range(1, 13)]
+    for variant in range(6 if not ctx.thorough else 18):
+        big = variant % 2 == 1
+        cfg = {"score": True, "penWeight": 0, "hosts": 6, "flood": False, "px": False, "D": 2, "Dlo": 1, "Dhi": 3, "Dscore": 1, "Dout": 0,
+               "oppTicks": 100000, "Dlazy": 1, "gossipFactorPct": 50, "followupMs": 1000, "idwThreshold": 64,
+               "maxIDWLen": 10 if big else 2, "maxIDWMsgs": 3, "maxIHaveLen": 5 if big else 2, "maxIHaveMsgs": 4, "retx": 2,
+               "thr": {"gossip": -2, "publish": -4, "graylist": -6, "acceptPX": 2, "oppGraft": 1}}
+        acts = [{"a": "subscribe", "t": "T1"}, {"a": "subscribe", "t": "T2"}]
+        for p, proto in (("p1", "v12"), ("p2", "v12" if variant % 3 else "v11"), ("p3", "v11")):
+            acts.append({"a": "peer", "p": p, "proto": proto, "dir": "in", "subs": ["T1", "T2"]})
+        acts.append({"a": "peer", "p": "pa", "proto": "v11", "dir": "in", "subs": []})
+        for m in ("m1", "m2", "m3", "m4"):
+            acts.append({"a": "mkmsg", "p": "pa", "t": "T1" if m != "m4" else "T2", "m": m, "size": 100 if m == "m1" else 16})
+        acts += [{"a": "graft", "p": "p1", "t": "T1"}, {"a": "graft", "p": "p1", "t": "T2"}]
+        if variant % 3 == 2:          # the declaring peer is a mesh peer: forwarding to it is suppressed too
+            acts.append({"a": "graft", "p": "p2", "t": "T1"})
+        acts.append({"a": "hb"})
+        # IHAVE: entries of the same topic / of two topics, each within MaxIHaveLength, together beyond it
+        if big:
+            acts.append({"a": "ihave", "p": "p3", "t": "T1", "ids": xs[:9], "split": [3, 3, 3], "ts": ["T1", "T2", "T1"]})
+        else:
+            acts.append({"a": "ihave", "p": "p3", "t": "T1", "ids": ["x1", "x2", "x3", "x4"], "split": [2, 2],
+                         "ts": ["T1", "T2"] if variant % 4 < 2 else ["T1", "T1"]})
+        acts.append({"a": "ihave", "p": "p2", "t": "T1", "ids": ["x5", "x6", "x7"], "split": [1, 1, 1]})
+        acts.append({"a": "hb"})
+        # IDONTWANT: entries within MaxIDontWantLength each, beyond it together; then the probes
+        if big:
+            acts.append({"a": "idontwant", "p": "p2", "ids": ["m1", "m2", "m3", "m4"] + xs[:8], "split": [4, 4, 4]})
+        else:
+            acts.append({"a": "idontwant", "p": "p2", "ids": ["m1", "m2", "m3", "m4"], "split": [2, 2]})
+        acts += [{"a": "msg", "p": "p1", "t": "T1", "m": "m1"}, {"a": "msg", "p": "p3", "t": "T1", "m": "m3"},
+                 {"a": "msg", "p": "p1", "t": "T2", "m": "m4"},
+                 {"a": "iwant", "p": "p2", "ids": ["m3", "m4", "m1"], "split": [1, 2]},
+                 {"a": "hb"},
+                 # IWANT: the same id once per entry, three entries, GossipRetransmission 2
+                 {"a": "iwant", "p": "p3", "ids": ["m3", "m3", "m3"], "split": [1, 1, 1]},
+                 {"a": "iwant", "p": "p3", "ids": ["m3"]},
+                 {"a": "idontwant", "p": "p3", "ids": ["m2", "m4", "m1"], "split": [1, 1, 1]},
+                 {"a": "iwant", "p": "p3", "ids": ["m1", "m4"], "split": [1, 1]}]
+        acts += [{"a": "hb"}] * 4
+        out.append({"cfg": cfg, "acts": acts, "fam": "multi-directed", "cov": []})
     return out
 
 
@@ -438,7 +501,7 @@ def validate(ctx, traces, name, lines_per_chunk=5000):
         return res.printed("VIOL"), res.printed("HIT"), res.distinct
 
     viols, hits, states = [], [], 0
-    with cf.ThreadPoolExecutor(max_workers=max(1, min(vlib.NCPU // 2, 6, len(chunks)))) as ex:
+    with cf.ThreadPoolExecutor(max_workers=max(1, min(vlib.NCPU // 2, 2, len(chunks)))) as ex:
         for v, h, st in ex.map(one, list(enumerate(chunks))):
             viols += v
             hits += h
@@ -547,6 +610,7 @@ def conformance(ctx):
             s = to_scenario(name, consts, b["hist"], k)
             s["cov"] = sorted(b["cov"])
             scenarios.append(s)
+    scenarios += multi_scenarios(ctx)
     scn_file = os.path.join(ctx.work, "router-scenarios.ndjson")
     vlib.write_ndjson(scn_file, scenarios)
     ctx.log("router: %d generated scenarios selected (all behaviours of every family: %s)" % (len(scenarios), exhaustive))
